@@ -93,7 +93,10 @@ Definition check_point (c : case) (p : list irule * list (Z * op) * Z * option o
   match p with
   | (_, _, _, None) => true
   | (ih, _, now, Some ob) =>
-      all2 (mutes_agree c) (map (fun ls => mutes (re_of_table (c_re c)) ih ls now) (c_lsets c)) (o_mutes ob) &&
+      (* the observed list covers a prefix of the case's label sets (all of them, except in the scale cases, where
+         thousands of sources exist and only the first few label sets are asked about) *)
+      all2 (mutes_agree c) (map (fun ls => mutes (re_of_table (c_re c)) ih ls now)
+                                (firstn (length (o_mutes ob)) (c_lsets c))) (o_mutes ob) &&
       all2 (state_agree c) (model_state ih) (o_state ob)
   end.
 Definition check_case (c : case) : bool := forallb (check_point c) (case_points c).
@@ -106,7 +109,8 @@ Definition firing_list (seg : list (Z * op)) (now : Z) : list alert :=
                      | None => [] end) (remove_dups (seg_fps seg)).
 
 Definition prop_point (c : case) (p : list irule * list (Z * op) * Z * option obs) : bool :=
-  let '(ih, seg, now, _) := p in
+  let '(ih, seg, now, ob) := p in
+  match ob with None => true | Some ob =>   (* evaluated where the implementation was observed, for the observed label sets *)
   let re := re_of_table (c_re c) in
   let fire := firing_list seg now in
   forallb (fun ls =>
@@ -116,6 +120,7 @@ Definition prop_point (c : case) (p : list irule * list (Z * op) * Z * option ob
         inhibitedb re (c_rules c) fire ls &&
         negb (beq fs []) &&
         forallb (fun f => existsb (fun s => beq (a_lbls s) f && existsb (fun r => inhibitsb re r s ls) (c_rules c)) fire) fs
-    end) (c_lsets c).
+    end) (firstn (length (o_mutes ob)) (c_lsets c))
+  end.
 Definition case_hist (c : case) : list (Z * op) := map (fun x => (fst (fst x), op_of c (snd (fst x)))) (c_hist c).
 Definition prop_case (c : case) : bool := forallb (prop_point c) (case_points c) && hist_okb [] (case_hist c).
